@@ -23,6 +23,8 @@ import SqiProofs.FiatLayer5
 import SqiProofs.FiatBytes1
 import SqiProofs.FiatBytes3
 import SqiProofs.FiatBytes5
+import SqiProofs.FpRefGen
+import SqiProofs.Fp2RefGen
 
 namespace SqiProps.C07
 open SqiModel.Gf SqiProofs.GfRef SqiProofs.GfMont SqiProofs.GfFp2
@@ -499,6 +501,155 @@ theorem ref_backend_refines_generated :
       SqiProofs.FiatLayer3.mul_val SqiProofs.FiatLayer3.square_val,
    genOps_refines .l5 SqiProofs.FiatLayer5.set_one_val SqiProofs.FiatLayer5.add_val SqiProofs.FiatLayer5.sub_val
       SqiProofs.FiatLayer5.mul_val SqiProofs.FiatLayer5.square_val⟩
+
+/-! ### the composites of src/gf/ref/gfx/fp.c by translation (tie T)
+
+`SqiGen.FpRef` is re-extracted from src/gf/ref/gfx/fp.c on every run by tools/translate/fpref.py (limb loops, accumulate loops,
+the bit loop of `fp_exp3div4`, calls, the `uint32_t` mask idioms; every integer variable carries its C width; C semantics of the
+emitted combinators: `SqiModel.FpRefSem`).  `generated = hand model` (`SqiProofs.FpRefGen`) for the functions listed below, so for
+them the chain is C text → generated definition → value-level model → `ZMod p` theorems, over the fiat primitives which are
+themselves translation + proof (`fiat_layer_refines_model_lvl*`).  Narrowing the accumulator of `fp_is_zero` to `uint32_t`, changing a
+loop bound, a mask or a call changes the generated text and these proofs stop building.
+All thirteen translated functions are proved.  Not translated (still hand models tied by correspondence): `fp_copy` (memcpy),
+`fp_encode`, `fp_decode`, `fp_decode_reduce` with `enc64le`/`dec64le` (byte buffers).  Read, not translated: the helpers of mp.h
+(`is_digit_zero_ct`, `is_digit_lessthan_ct`, macro `SUBC`, `mp_shiftr` by one bit) — stated in `SqiModel.FpRefSem` as what they compute. -/
+theorem ref_composites_generated_eq_model {P : RefParams} (hL : IsLevel P) :
+    (∀ a, a < P.R → SqiGen.FpRef.fp_is_zero P a = Ref.fp_is_zero a) ∧
+    (∀ a b, a < P.R → b < P.R → SqiGen.FpRef.fp_is_equal P a b = Ref.fp_is_equal a b) ∧
+    (∀ d a0 a1 ctl, d < P.R → a0 < P.R → a1 < P.R → SqiGen.FpRef.fp_select P d a0 a1 ctl = Ref.fp_select P a0 a1 ctl) ∧
+    (∀ a, a < P.R → SqiGen.FpRef.fp_set_zero P a = Ref.fp_set_zero) ∧
+    (∀ a, SqiGen.FpRef.fp_set_one P a = Ref.fp_set_one P) ∧
+    (∀ x v, x < P.R → SqiGen.FpRef.fp_set_small P x v = Ref.fp_set_small P v) ∧
+    (∀ out a, SqiGen.FpRef.fp_exp3div4 P out a = Ref.fp_exp3div4 P a) ∧
+    (∀ a, SqiGen.FpRef.fp_inv P a = Ref.fp_inv P a) ∧
+    (∀ out a, SqiGen.FpRef.fp_half P out a = Ref.fp_half P a) ∧
+    (∀ a, a < P.p → SqiGen.FpRef.fp_is_square P a = Ref.fp_is_square P a) ∧
+    (∀ a b ctl, a < P.R → b < P.R → SqiGen.FpRef.fp_cswap P a b ctl = Ref.fp_cswap P a b ctl) ∧
+    (∀ out a, a < P.R → SqiGen.FpRef.fp_neg P out a = Ref.fp_neg P a) ∧
+    (∀ a, a < P.p → SqiGen.FpRef.fp_sqrt P a = Ref.fp_sqrt P a) := by
+  have := hL.prime
+  have hV := hL.valid
+  exact ⟨SqiProofs.FpRefGen.fp_is_zero_eq P, SqiProofs.FpRefGen.fp_is_equal_eq P,
+    fun d a0 a1 ctl => SqiProofs.FpRefGen.fp_select_eq P d a0 a1 ctl, SqiProofs.FpRefGen.fp_set_zero_eq P,
+    SqiProofs.FpRefGen.fp_set_one_eq P, fun x v hx => SqiProofs.FpRefGen.fp_set_small_eq P hV.hn x v hx,
+    SqiProofs.FpRefGen.fp_exp3div4_eq P, SqiProofs.FpRefGen.fp_inv_eq P,
+    SqiProofs.FpRefGen.fp_half_eq hV, SqiProofs.FpRefGen.fp_is_square_eq hV,
+    fun a b ctl => SqiProofs.FpRefGen.fp_cswap_eq P a b ctl, SqiProofs.FpRefGen.fp_neg_eq P hV,
+    SqiProofs.FpRefGen.fp_sqrt_eq hV⟩
+
+/-- the ref-back-end record with the five primitives = the extracted fiat programs (`genOps`) AND the composites = the functions
+    generated from gfx/fp.c (output arrays start as 0) -/
+def genOpsFull (P : RefParams) (n : Nat) (add sub mul square set_one : SqiModel.Fiat.Prog) : FpOps Nat :=
+  { genOps P n add sub mul square set_one with
+    zero := SqiGen.FpRef.fp_set_zero P 0
+    neg := fun a => SqiGen.FpRef.fp_neg P 0 a
+    half := fun a => SqiGen.FpRef.fp_half P 0 a
+    inv := SqiGen.FpRef.fp_inv P
+    sqrt := SqiGen.FpRef.fp_sqrt P
+    isSquare := SqiGen.FpRef.fp_is_square P
+    isZero := SqiGen.FpRef.fp_is_zero P
+    isEqual := SqiGen.FpRef.fp_is_equal P
+    select := fun a b ctl => SqiGen.FpRef.fp_select P 0 a b ctl
+    cswap := SqiGen.FpRef.fp_cswap P
+    setSmall := SqiGen.FpRef.fp_set_small P 0 }
+
+/-- **C07, ref back-end, text → proof**: the record made of the extracted fiat programs and the generated gfx/fp.c composites
+    refines `ZMod p` (`encode` is the only field still taken from the hand model) -/
+theorem genOpsFull_refines {P : RefParams} (hL : IsLevel P) {n : Nat} {add sub mul square set_one : SqiModel.Fiat.Prog}
+    (h1 : SqiModel.Fiat.runLimbs set_one n [] = Ref.fp_set_one P)
+    (hadd : ∀ a b, a < P.R → b < P.R → SqiModel.Fiat.runLimbs add n [a, b] = Ref.fp_add P a b)
+    (hsub : ∀ a b, a < P.R → b < P.R → SqiModel.Fiat.runLimbs sub n [a, b] = Ref.fp_sub P a b)
+    (hmul : ∀ a b, a < P.R → b < P.R → SqiModel.Fiat.runLimbs mul n [a, b] = Ref.fp_mul P a b)
+    (hsqr : ∀ a, a < P.R → SqiModel.Fiat.runLimbs square n [a] = Ref.fp_sqr P a) :
+    have := hL.prime
+    FpRefines (genOpsFull P n add sub mul square set_one) P.p (fun a => a < P.p) (toZ P) := by
+  have := hL.prime
+  have hV := hL.valid
+  have hR := hV.hpR
+  have h0 : (0 : Nat) < P.R := Nat.two_pow_pos _
+  have r := genOps_refines hL h1 hadd hsub hmul hsqr
+  obtain ⟨g1, g2, g3, g4, g5, g6, g7, g8, g9, g10, g11, g12, g13⟩ := ref_composites_generated_eq_model hL
+  exact
+    { p4 := r.p4
+      zero := by
+        have e : (genOpsFull P n add sub mul square set_one).zero = Ref.fp_set_zero := g4 0 h0
+        rw [e]; exact r.zero
+      one := r.one, add := r.add, sub := r.sub, mul := r.mul, sqr := r.sqr
+      neg := fun {a} ha => by
+        have e : (genOpsFull P n add sub mul square set_one).neg a = Ref.fp_neg P a := g12 0 a (by omega)
+        rw [e]; exact r.neg ha
+      half := fun {a} ha => by
+        have e : (genOpsFull P n add sub mul square set_one).half a = Ref.fp_half P a := g9 0 a
+        rw [e]; exact r.half ha
+      inv := fun {a} ha => by
+        have e : (genOpsFull P n add sub mul square set_one).inv a = Ref.fp_inv P a := g8 a
+        rw [e]; exact r.inv ha
+      sqrt := fun {a} ha => by
+        have e : (genOpsFull P n add sub mul square set_one).sqrt a = Ref.fp_sqrt P a := g13 a ha
+        rw [e]; exact r.sqrt ha
+      isSquare := fun {a} ha => by
+        have e : (genOpsFull P n add sub mul square set_one).isSquare a = Ref.fp_is_square P a := g10 a ha
+        rw [e]; exact r.isSquare ha
+      isZero := fun {a} ha => by
+        have e : (genOpsFull P n add sub mul square set_one).isZero a = Ref.fp_is_zero a := g1 a (by omega)
+        rw [e]; exact r.isZero ha
+      isEqual := fun {a b} ha hb => by
+        have e : (genOpsFull P n add sub mul square set_one).isEqual a b = Ref.fp_is_equal a b := g2 a b (by omega) (by omega)
+        rw [e]; exact r.isEqual ha hb
+      select := fun {a b} ha hb => by
+        have e0 : (genOpsFull P n add sub mul square set_one).select a b 0 = Ref.fp_select P a b 0 := g3 0 a b 0 h0 (by omega) (by omega)
+        have e1 : (genOpsFull P n add sub mul square set_one).select a b T32 = Ref.fp_select P a b T32 := g3 0 a b T32 h0 (by omega) (by omega)
+        rw [e0, e1]; exact r.select ha hb
+      cswap := fun {a b} ha hb => by
+        have e0 : (genOpsFull P n add sub mul square set_one).cswap a b 0 = Ref.fp_cswap P a b 0 := g11 a b 0 (by omega) (by omega)
+        have e1 : (genOpsFull P n add sub mul square set_one).cswap a b T32 = Ref.fp_cswap P a b T32 := g11 a b T32 (by omega) (by omega)
+        rw [e0, e1]; exact r.cswap ha hb
+      setSmall := fun v hv => by
+        have e : (genOpsFull P n add sub mul square set_one).setSmall v = Ref.fp_set_small P v := g6 0 v h0
+        rw [e]; exact r.setSmall v hv
+      encode := r.encode }
+
+/-- instances for the three parameter sets -/
+theorem ref_backend_text_to_proof :
+    FpRefines (genOpsFull lvl1 4 SqiGen.Fiat1.add SqiGen.Fiat1.sub SqiGen.Fiat1.mul SqiGen.Fiat1.square SqiGen.Fiat1.set_one) lvl1.p (fun a => a < lvl1.p) (toZ lvl1) ∧
+    FpRefines (genOpsFull lvl3 6 SqiGen.Fiat3.add SqiGen.Fiat3.sub SqiGen.Fiat3.mul SqiGen.Fiat3.square SqiGen.Fiat3.set_one) lvl3.p (fun a => a < lvl3.p) (toZ lvl3) ∧
+    FpRefines (genOpsFull lvl5 8 SqiGen.Fiat5.add SqiGen.Fiat5.sub SqiGen.Fiat5.mul SqiGen.Fiat5.square SqiGen.Fiat5.set_one) lvl5.p (fun a => a < lvl5.p) (toZ lvl5) :=
+  ⟨genOpsFull_refines .l1 SqiProofs.FiatLayer1.set_one_val SqiProofs.FiatLayer1.add_val SqiProofs.FiatLayer1.sub_val
+      SqiProofs.FiatLayer1.mul_val SqiProofs.FiatLayer1.square_val,
+   genOpsFull_refines .l3 SqiProofs.FiatLayer3.set_one_val SqiProofs.FiatLayer3.add_val SqiProofs.FiatLayer3.sub_val
+      SqiProofs.FiatLayer3.mul_val SqiProofs.FiatLayer3.square_val,
+   genOpsFull_refines .l5 SqiProofs.FiatLayer5.set_one_val SqiProofs.FiatLayer5.add_val SqiProofs.FiatLayer5.sub_val
+      SqiProofs.FiatLayer5.mul_val SqiProofs.FiatLayer5.square_val⟩
+
+/-- **src/gf/ref/gfx/fp2.c, straight-line functions, by translation**: `SqiGen.Fp2Ref` (tools/translate/fp2ref.py, re-extracted on every
+    run) equals the models `fp2_*` of `SqiModel.Gf` that the generic GF(p²) theorems above are about, for EVERY operation record
+    (definitional, plus one lemma on `-((uint32_t)buf[0] & 1)` for the sign normalisation of `fp2_sqrt`).  Not translated:
+    `fp2_batched_inv`, `fp2_pow_vartime` (loops over arrays), `fp2_encode`, `fp2_decode`: hand models tied by correspondence. -/
+theorem fp2_straightline_generated_eq_model {α : Type} (O : FpOps α) :
+    (∀ x v, SqiGen.Fp2Ref.fp2_set_small O x v = fp2_set_small O v) ∧
+    (∀ x, SqiGen.Fp2Ref.fp2_set_one O x = fp2_set_one O) ∧
+    (∀ x, SqiGen.Fp2Ref.fp2_set_zero O x = fp2_set_zero O) ∧
+    (∀ a, SqiGen.Fp2Ref.fp2_is_zero O a = fp2_is_zero O a) ∧
+    (∀ a b, SqiGen.Fp2Ref.fp2_is_equal O a b = fp2_is_equal O a b) ∧
+    (∀ a, SqiGen.Fp2Ref.fp2_is_one O a = fp2_is_one O a) ∧
+    (∀ d a0 a1 ctl, SqiGen.Fp2Ref.fp2_select O d a0 a1 ctl = fp2_select O a0 a1 ctl) ∧
+    (∀ a b ctl, SqiGen.Fp2Ref.fp2_cswap O a b ctl = fp2_cswap O a b ctl) ∧
+    (∀ x y, SqiGen.Fp2Ref.fp2_copy O x y = y) ∧
+    (∀ x y, SqiGen.Fp2Ref.fp2_half O x y = fp2_half O y) ∧
+    (∀ x y z, SqiGen.Fp2Ref.fp2_add O x y z = fp2_add O y z) ∧
+    (∀ x y z, SqiGen.Fp2Ref.fp2_sub O x y z = fp2_sub O y z) ∧
+    (∀ x y, SqiGen.Fp2Ref.fp2_neg O x y = fp2_neg O y) ∧
+    (∀ x y z, SqiGen.Fp2Ref.fp2_mul O x y z = fp2_mul O y z) ∧
+    (∀ x y, SqiGen.Fp2Ref.fp2_sqr O x y = fp2_sqr O y) ∧
+    (∀ x, SqiGen.Fp2Ref.fp2_inv O x = fp2_inv O x) ∧
+    (∀ x, SqiGen.Fp2Ref.fp2_is_square O x = fp2_is_square O x) ∧
+    (∀ x, SqiGen.Fp2Ref.fp2_sqrt O x = fp2_sqrt O x) :=
+  ⟨SqiProofs.Fp2RefGen.fp2_set_small_eq O, SqiProofs.Fp2RefGen.fp2_set_one_eq O, SqiProofs.Fp2RefGen.fp2_set_zero_eq O,
+   SqiProofs.Fp2RefGen.fp2_is_zero_eq O, SqiProofs.Fp2RefGen.fp2_is_equal_eq O, SqiProofs.Fp2RefGen.fp2_is_one_eq O,
+   SqiProofs.Fp2RefGen.fp2_select_eq O, SqiProofs.Fp2RefGen.fp2_cswap_eq O, SqiProofs.Fp2RefGen.fp2_copy_eq O,
+   SqiProofs.Fp2RefGen.fp2_half_eq O, SqiProofs.Fp2RefGen.fp2_add_eq O, SqiProofs.Fp2RefGen.fp2_sub_eq O,
+   SqiProofs.Fp2RefGen.fp2_neg_eq O, SqiProofs.Fp2RefGen.fp2_mul_eq O, SqiProofs.Fp2RefGen.fp2_sqr_eq O,
+   SqiProofs.Fp2RefGen.fp2_inv_eq O, SqiProofs.Fp2RefGen.fp2_is_square_eq O, SqiProofs.Fp2RefGen.fp2_sqrt_eq O⟩
 
 /-! ## x86 ("broadwell") back-end, value-level model `SqiModel.GfX86`
 
